@@ -121,8 +121,25 @@ func Explore(r *core.Run, o Options) {
 				pBefore = append(pBefore, snapshot(p))
 			}
 		}
-		res, err := dc.ApplyPatches(n.doc, ps)
+		input := n.doc
+		if !o.Mutation {
+			// parallel transitions: each call gets its own copy of the document (code that wrongly edits its input cannot disturb the others)
+			input = document.Document(rpatch.Clone(map[string]any(n.doc)).(map[string]any))
+		}
+		var res document.Document
+		var err error
 		last := alphabet[sis[len(sis)-1]].Name
+		if pf := func() (f *core.Fail) {
+			defer func() {
+				if p := recover(); p != nil {
+					f = &core.Fail{Key: "panic/" + last, What: fmt.Sprintf("ApplyPatches panicked on %v: %v", pathNamesOnly(alphabet, sis), p), Detail: merge(det, map[string]any{"panic": fmt.Sprint(p)})}
+				}
+			}()
+			res, err = dc.ApplyPatches(input, ps)
+			return nil
+		}(); pf != nil {
+			return nil, pf
+		}
 		if o.Mutation {
 			if after := snapshot(n.doc); after != before {
 				return nil, &core.Fail{Key: "mutated-input-document/" + last, What: "ApplyPatches modified the input document", Detail: merge(det, map[string]any{"before": before, "after": after})}
